@@ -118,13 +118,20 @@ func (monC12) PreCall(s *Sim, c *Call) {
 			bad("foreign PodTemplate")
 		}
 	case KPod:
-		old := e.Annotations[edsv1.ExtendedDaemonSetOldDaemonsetAnnotationKey]
+		// the declared migration: as stored now, or as this reconcile read it (the user may
+		// cancel or retarget the migration while a sync is under way)
+		olds := []string{e.Annotations[edsv1.ExtendedDaemonSetOldDaemonsetAnnotationKey]}
+		if v := t.View(); v.EDS != nil && v.EDS.UID == e.UID {
+			olds = append(olds, v.EDS.Annotations[edsv1.ExtendedDaemonSetOldDaemonsetAnnotationKey])
+		}
 		own := target.Namespace == e.Namespace && target.Labels[edsv1.ExtendedDaemonSetNameLabelKey] == e.Name
 		migrated := false
-		if old != "" && target.Namespace == e.Namespace {
-			for _, r := range target.OwnerReferences {
-				if r.Kind == "DaemonSet" && r.Name == old {
-					migrated = true
+		for _, old := range olds {
+			if old != "" && target.Namespace == e.Namespace {
+				for _, r := range target.OwnerReferences {
+					if r.Kind == "DaemonSet" && r.Name == old {
+						migrated = true
+					}
 				}
 			}
 		}
